@@ -4,7 +4,7 @@ import ast, builtins, collections, copy, inspect, operator, textwrap, types, typ
 import z3
 from . import api, src
 from .core import Unsupported, PathEnd, ReturnSig, BreakSig, ContinueSig, PyRaise
-from .zsorts import VStruct, VOpt, VBox, VObj, VAbs
+from .zsorts import VStruct, VOpt, VBox, VObj, VAbs, VFn
 from .interp import Frame, Closure, BoundMethod, SpecRef, Builtin, is_sym, contains_sym, _mro_dict
 from .exprs import PyList, PyDict
 from .stmts import IterView, ExcVal, GenResult
@@ -61,6 +61,11 @@ class CallMixin:
             return self.call_spec(f.spec, args, node)
         if isinstance(f, Builtin):
             return f.fn(args, kwargs, node, fr)
+        if isinstance(f, VFn):
+            zs = self.zs
+            uf = self.ufun('fn_' + f.name, *[zs.zsort(s_) for s_ in f.sort.args], zs.zsort(f.sort.ret))
+            self.assumptions.add(f'callable parameter {f.name} is a pure function of its arguments')
+            return self.wrap_sort(uf(*[zs.lift(self.unwrap_term(a), zs.zsort(s_)) for a, s_ in zip(args, f.sort.args)]), f.sort.ret)
         if z3.is_expr(f) and f.sort().name() in self.zs.enum_by_sort:
             return self.call_enum(f, args, kwargs, node, fr)
         if is_sym(f):
@@ -218,7 +223,8 @@ class CallMixin:
             except PyRaise:
                 env0 = None
             best = None
-            for cc in cands:
+            pref = [cc for cc in cands if cc.variant == 'callee']
+            for cc in (pref or cands):
                 if env0 is not None and all(self.kind_matches(S, env0[k]) for k, S in cc.params.items() if k in env0):
                     sc = sum(self.specificity(S, env0[k]) for k, S in cc.params.items() if k in env0)
                     if best is None or sc < best[0]:
@@ -709,6 +715,11 @@ class CallMixin:
         names['emptyset'] = Builtin('emptyset', lambda a, k, n, f: VBox('set', None))
         for an_, S_ in (getattr(c, 'opaque_attrs', None) or {}).items():
             names['attr_' + an_] = Builtin('attr_' + an_, lambda a, k, n, f, an_=an_: self.obj_attr(a[0], an_, n))
+        for fn_, (as_, rs_) in (getattr(c, 'opaque_fns', None) or {}).items():
+            names['fn_' + fn_] = VFn(fn_, api.Fn(as_, rs_, fn_))
+        for pn_, ps_ in (getattr(c, 'params', None) or {}).items():
+            if isinstance(ps_, api.Fn):
+                names['fn_' + (ps_.fname or pn_)] = VFn(ps_.fname or pn_, ps_)
         names['re_match'] = Builtin('re_match', lambda a, k, n, f: self.re_syms(a[0], a[2] if len(a) > 2 else 'match')[1](self.zs.lift(a[1], STR)))
         names['re_group'] = Builtin('re_group', lambda a, k, n, f: self.re_group_syms(a[0], a[3] if len(a) > 3 else 'match', a[1])[0](self.zs.lift(a[2], STR)))
         names['re_group_none'] = Builtin('re_group_none', lambda a, k, n, f: self.re_group_syms(a[0], a[3] if len(a) > 3 else 'match', a[1])[1](self.zs.lift(a[2], STR)))
